@@ -333,6 +333,58 @@ def check_constant_draws(ps, sizes):
     return bad, n
 
 
+class GatedGen(np.random.Generator):
+    """a seeded generator that waits, at its k-th request for deviates, until another thread has finished a whole screen"""
+
+    def __init__(self, seed, pause_at, gate, reached):
+        super().__init__(np.random.PCG64(seed))
+        self.k, self.pause_at, self.gate, self.reached = 0, pause_at, gate, reached
+
+    def normal(self, loc=0.0, scale=1.0, size=None):
+        self.k += 1
+        if self.k == self.pause_at:
+            self.reached.set()
+            self.gate.wait(60)
+        return super().normal(loc, scale, size)
+
+
+def check_two_threads(ps):
+    """two screens of the same size generated at the same time by two threads (a deterministic schedule: thread A stops between its
+    high-frequency part and its sub-harmonics while thread B generates a complete screen): each is the screen of its own deviates"""
+    import threading
+    bad = []
+    for fn, pause in ((ps.ft_sh_phase_screen, 3), (ps.ft_sh_phase_screen, 5), (ps.ft_phase_screen, 2)):
+        N = 8
+        alone = [np.asarray(fn(0.2, N, 0.1, 20.0, 0.01, seed=np.random.default_rng(s_)), float) for s_ in (21, 22)]
+        gate, reached = threading.Event(), threading.Event()
+        out = {}
+        ta = threading.Thread(target=lambda: out.__setitem__("a", np.asarray(fn(0.2, N, 0.1, 20.0, 0.01, seed=GatedGen(21, pause, gate, reached)), float)))
+        ta.start()
+        reached.wait(60)
+        out["b"] = np.asarray(fn(0.2, N, 0.1, 20.0, 0.01, seed=np.random.default_rng(22)), float)
+        gate.set()
+        ta.join(60)
+        if "a" not in out or not np.array_equal(out["a"], alone[0]) or not np.array_equal(out["b"], alone[1]):
+            bad.append(("%s:screens-generated-concurrently-influence-each-other" % fn.__name__, dict(N=N, paused_before_request=pause,
+                        err_a=float(np.abs(out.get("a", alone[0] * np.nan) - alone[0]).max()), err_b=float(np.abs(out["b"] - alone[1]).max()))))
+            break
+    return bad
+
+
+def check_huge(ps, N=4096):
+    """one very large screen (16 M pixels): for fixed draws the amplitude scales exactly as r0^(-5/6) and the spatial mean is zero to
+    double precision"""
+    bad = []
+    a = np.asarray(ps.ft_phase_screen(0.2, N, 0.01, 30.0, 0.01, seed=77), float)
+    b = np.asarray(ps.ft_phase_screen(0.4, N, 0.01, 30.0, 0.01, seed=77), float)
+    rms = float(a.std())
+    if a.shape != (N, N) or not np.allclose(b, a * 2.0 ** (-5. / 6), rtol=0, atol=1e-11 * np.abs(a).max()):
+        bad.append(("ft_phase_screen:r0-scaling:very-large-grid", dict(N=N, err=float(np.abs(b - a * 2.0 ** (-5. / 6)).max() / np.abs(a).max()) if a.shape == (N, N) else None)))
+    elif abs(float(a.mean())) > 1e-13 * rms:
+        bad.append(("ft_phase_screen:non-zero-spatial-mean:very-large-grid", dict(N=N, mean_over_rms=float(a.mean()) / rms)))
+    return bad
+
+
 def synth_case(N):
     """the model's tables for the plain screen from their closed form (checked against TLC's own tables for the sizes TLC printed)"""
     k = np.arange(N)
@@ -497,6 +549,10 @@ def run(run):
                     run.violation("ft_sh_phase_screen:same-seed-coupling-lowers-structure-function", dict(N=c["N"], params=P, rel=rel),
                                   dict(kind="size", N=c["N"]))
     with np.errstate(all="ignore"):
+        for key, detail in check_two_threads(ps) + check_huge(ps):
+            run.violation(key, detail, dict(kind="threads-or-huge"))
+    total += 4
+    with np.errstate(all="ignore"):
         badk, nk = check_constant_draws(ps, (4, 8, 26, 34, 96, 300, 320) if quick else (4, 8, 12, 26, 34, 58, 96, 300, 320, 384, 640))
     for key, detail in badk:
         run.violation(key, detail, dict(kind="constant"))
@@ -528,6 +584,11 @@ def replay(run, case):
     core.import_aotools()
     from aotools.turbulence import phasescreen as ps
     warnings.simplefilter("ignore")
+    if case.get("kind") == "threads-or-huge":
+        with np.errstate(all="ignore"):
+            for key, detail in check_two_threads(ps) + check_huge(ps):
+                run.violation(key, detail, case)
+        return
     if case.get("kind") == "constant":
         with np.errstate(all="ignore"):
             for key, detail in check_constant_draws(ps, (4, 8, 26, 34, 96, 300, 320))[0]:
